@@ -13,8 +13,10 @@ CONSTANTS Threads,     \* logical frontend threads (strings)
           FlushSz,     \* record size of a flush request
           RmSz,        \* record size of a logger removal request (flag pointer + logger name)
           Bounded, Dropping,  \* queue type
-          Cap,         \* queue capacity in bytes (bounded) / bytes read per pass limit
-          Batch,       \* reader publish batch in bytes (EXTRACTED)
+          Cap,         \* queue capacity in bytes (bounded) / initial node capacity (unbounded)
+          MaxCap,      \* unbounded queues: largest node ever allocated (unbounded_queue_max_capacity)
+          Pct,         \* reader publish batch as a percentage of the node capacity (EXTRACTED)
+          AllowShrink, \* shrink_thread_local_queue() may be called (C20)
           PublishWhenDrained, \* EXTRACTED
           Soft, Hard,  \* transit event limits
           Grace,       \* ordering grace period in clock units (0 = off)
@@ -28,6 +30,7 @@ CONSTANTS Threads,     \* logical frontend threads (strings)
 VARIABLES now,
           fpc, cur, nlog, nflush, need, flag,       \* frontend, per thread
           q, wpos, rpos, rpub, fail, valid, reg,    \* per-thread context: queue (records), byte positions, counters
+          nodes,                                    \* per-thread chain of queue buffers, consumer's first, producer's last: [base, cap]
           ctxs, newFlag, invalidCnt,                \* registry (sequence of threads), new-context flag, invalid counter
           cache, ring,                              \* backend: context cache (sequence), per-thread transit ring (records)
           bpc, bi, tsNow, batchMode, lastIdle, flushWho, \* backend program counter
@@ -36,7 +39,7 @@ VARIABLES now,
           lgValid, lgPresent, hasInval, acc,        \* logger registry: valid flag, still registered, invalidated-loggers flag; accepted ids
           nid, dropped, reported, anyLate, bad, hist
 
-vars == <<now, fpc, cur, nlog, nflush, need, flag, q, wpos, rpos, rpub, fail, valid, reg, ctxs, newFlag, invalidCnt,
+vars == <<now, fpc, cur, nlog, nflush, need, flag, q, wpos, rpos, rpub, fail, valid, reg, nodes, ctxs, newFlag, invalidCnt,
           cache, ring, bpc, bi, tsNow, batchMode, lastIdle, flushWho, written, flushedTo, rmWait, rmDone, lgValid, lgPresent, hasInval, acc,
           nid, dropped, reported, anyLate, bad, hist>>
 Inf == 1000000
@@ -51,6 +54,7 @@ Init ==
   /\ nflush = [t \in Threads |-> 0] /\ need = [t \in Threads |-> {}] /\ flag = [t \in Threads |-> FALSE]
   /\ q = [t \in Threads |-> <<>>] /\ wpos = [t \in Threads |-> 0] /\ rpos = [t \in Threads |-> 0] /\ rpub = [t \in Threads |-> 0]
   /\ fail = [t \in Threads |-> 0] /\ valid = [t \in Threads |-> TRUE] /\ reg = [t \in Threads |-> FALSE]
+  /\ nodes = [t \in Threads |-> <<[base |-> 0, cap |-> Cap]>>]
   /\ ctxs = <<>> /\ newFlag = FALSE /\ invalidCnt = 0 /\ cache = <<>> /\ ring = [t \in Threads |-> <<>>]
   /\ bpc = "start" /\ bi = 1 /\ tsNow = Inf /\ batchMode = FALSE /\ lastIdle = FALSE /\ flushWho = ""
   /\ rmWait = [l \in Loggers |-> ""] /\ rmDone = [t \in Threads |-> FALSE]
@@ -61,14 +65,23 @@ RECURSIVE SumFailR(_, _)
 SumFailR(S, f) == IF S = {} THEN 0 ELSE LET x == CHOOSE y \in S : TRUE IN f[x] + SumFailR(S \ {x}, f)
 \* history: scheduling step (who ran to its next yield point) followed by the contract events it produced
 \* `pre` = projection of the state BEFORE the step (compared with the real code's state before it executes the step)
-Pre == [t \in Threads |-> <<wpos[t] - rpos[t], rpos[t] - rpub[t], Len(ring[t])>>]
+Pre == [t \in Threads |-> <<wpos[t] - rpos[t], rpos[t] - rpub[t], Len(ring[t]), nodes[t][Len(nodes[t])].cap, nodes[t][1].cap, Len(nodes[t])>>]
 Step(who, act, arg, evs) ==
   hist' = IF Export THEN hist \o <<[k |-> "step", who |-> who, act |-> act, arg |-> arg, pre |-> Pre, nw |-> Len(written)]>> \o evs ELSE hist
 Fail(cond, why) == IF cond \/ bad # "" THEN bad ELSE why
 
 \* ------------------------------------------------------------------ frontend
-Free(t) == Cap - (wpos[t] - rpub[t])
-Fits(t, sz) == ~Bounded \/ Free(t) >= sz
+Max2(a, b) == IF a > b THEN a ELSE b
+PNode(t) == nodes[t][Len(nodes[t])]                       \* the producer's buffer
+Free(t) == PNode(t).cap - (wpos[t] - Max2(rpub[t], PNode(t).base))
+\* UnboundedSPSCQueue::_handle_full_queue: double until the record fits; refused beyond the maximum
+RECURSIVE Grow(_, _)
+Grow(c, sz) == IF c >= sz THEN c ELSE Grow(c * 2, sz)
+NewCap(t, sz) == Grow(PNode(t).cap * 2, sz)
+CanGrow(t, sz) == ~Bounded /\ NewCap(t, sz) <= MaxCap
+Fits(t, sz) == Free(t) >= sz \/ CanGrow(t, sz)
+NodesAfter(t, sz) == IF Free(t) >= sz THEN nodes[t] ELSE Append(nodes[t], [base |-> wpos[t], cap |-> NewCap(t, sz)])
+BatchOf(c) == (c * Pct) \div 100
 
 \* first half of a log call: level check passed, clock read (every read advances the clock), context registered
 LogStart(t, sz, l) ==
@@ -77,7 +90,7 @@ LogStart(t, sz, l) ==
   /\ now' = now + 1 /\ nid' = nid + 1
   /\ cur' = [cur EXCEPT ![t] = [id |-> nid + 1, t |-> t, sz |-> sz, ts |-> now + 1, kind |-> "log", lg |-> l]]
   /\ fpc' = [fpc EXCEPT ![t] = "ts"] /\ nlog' = [nlog EXCEPT ![t] = @ + 1]
-  /\ UNCHANGED <<reg, ctxs, newFlag, nflush, need, flag, q, wpos, rpos, rpub, fail, valid, invalidCnt, cache, ring, bpc, bi, tsNow, batchMode, lastIdle, flushWho,
+  /\ UNCHANGED <<reg, ctxs, newFlag, nflush, need, flag, q, wpos, nodes, rpos, rpub, fail, valid, invalidCnt, cache, ring, bpc, bi, tsNow, batchMode, lastIdle, flushWho,
                  written, flushedTo, dropped, reported, anyLate, bad>>
   /\ Step(t, "logstart", <<sz, l>>, <<[k |-> "logcall", t |-> t, id |-> nid + 1, lg |-> l, lvl |-> 4, kind |-> "direct"],
                                    [k |-> "ts", t |-> t, now |-> now + 1]>>)
@@ -86,6 +99,7 @@ LogStart(t, sz, l) ==
 TryEnqueue(t, act, r) ==
   IF Fits(t, r.sz)
   THEN /\ q' = [q EXCEPT ![t] = Append(@, r)] /\ wpos' = [wpos EXCEPT ![t] = @ + r.sz]
+       /\ nodes' = [nodes EXCEPT ![t] = NodesAfter(t, r.sz)]
        /\ acc' = IF r.kind = "log" THEN acc \cup {r.id} ELSE acc
        /\ anyLate' = (anyLate \/ (Grace > 0 /\ now - r.ts > Grace))
        /\ IF r.kind = "log"
@@ -96,7 +110,7 @@ TryEnqueue(t, act, r) ==
           ELSE /\ fpc' = [fpc EXCEPT ![t] = "flushwait"] /\ cur' = [cur EXCEPT ![t] = NoRec]
                /\ UNCHANGED <<fail, dropped>>
                /\ Step(t, act, <<>>, <<>>)
-  ELSE /\ UNCHANGED <<q, wpos, anyLate, acc>>
+  ELSE /\ UNCHANGED <<q, wpos, nodes, anyLate, acc>>
        /\ IF r.kind = "log" /\ Dropping
           THEN /\ fail' = [fail EXCEPT ![t] = @ + 1] /\ dropped' = dropped \cup {r.id}
                /\ fpc' = [fpc EXCEPT ![t] = "idle"] /\ cur' = [cur EXCEPT ![t] = NoRec]
@@ -143,8 +157,9 @@ FlushStart(t) ==
   /\ LET r == [id |-> nid + 1, t |-> t, sz |-> FlushSz, ts |-> now + 1, kind |-> "flush", lg |-> ""] IN
      IF Fits(t, FlushSz)
      THEN /\ q' = [q EXCEPT ![t] = Append(@, r)] /\ wpos' = [wpos EXCEPT ![t] = @ + FlushSz]
+          /\ nodes' = [nodes EXCEPT ![t] = NodesAfter(t, FlushSz)]
           /\ fpc' = [fpc EXCEPT ![t] = "flushwait"] /\ UNCHANGED cur
-     ELSE /\ fpc' = [fpc EXCEPT ![t] = "blocked"] /\ cur' = [cur EXCEPT ![t] = r] /\ UNCHANGED <<q, wpos>>
+     ELSE /\ fpc' = [fpc EXCEPT ![t] = "blocked"] /\ cur' = [cur EXCEPT ![t] = r] /\ UNCHANGED <<q, wpos, nodes>>
   /\ UNCHANGED <<nlog, rpos, rpub, fail, valid, invalidCnt, cache, ring, bpc, bi, tsNow, batchMode, lastIdle, flushWho, written, flushedTo,
                  dropped, reported, anyLate, bad>>
   /\ Step(t, "flushstart", <<>>, <<[k |-> "ctxuse", t |-> t], [k |-> "flushcall", t |-> t]>>)
@@ -160,14 +175,14 @@ FlushCheck(t) ==
                          "C06: flush_log returned before an earlier statement was written and flushed")
           /\ Step(t, "flushcheck", <<>>, <<[k |-> "flushret", t |-> t]>>)
      ELSE /\ UNCHANGED <<fpc, bad>> /\ Step(t, "flushcheck", <<>>, <<>>)
-  /\ UNCHANGED <<now, cur, nlog, nflush, need, flag, q, wpos, rpos, rpub, fail, valid, reg, ctxs, newFlag, invalidCnt, cache, ring,
+  /\ UNCHANGED <<now, cur, nlog, nflush, need, flag, q, wpos, nodes, rpos, rpub, fail, valid, reg, ctxs, newFlag, invalidCnt, cache, ring,
                  bpc, bi, tsNow, batchMode, lastIdle, flushWho, written, flushedTo, nid, dropped, reported, anyLate>>
 
 ThreadExit(t) ==
   /\ UNCHANGED LgVars /\ UNCHANGED acc /\ UNCHANGED RmVars
   /\ AllowExit /\ fpc[t] = "idle" /\ reg[t] /\ valid[t]
   /\ fpc' = [fpc EXCEPT ![t] = "done"] /\ valid' = [valid EXCEPT ![t] = FALSE] /\ invalidCnt' = invalidCnt + 1
-  /\ UNCHANGED <<now, cur, nlog, nflush, need, flag, q, wpos, rpos, rpub, fail, reg, ctxs, newFlag, cache, ring, bpc, bi, tsNow,
+  /\ UNCHANGED <<now, cur, nlog, nflush, need, flag, q, wpos, nodes, rpos, rpub, fail, reg, ctxs, newFlag, cache, ring, bpc, bi, tsNow,
                  batchMode, lastIdle, flushWho, written, flushedTo, nid, dropped, reported, anyLate, bad>>
   /\ Step(t, "exit", <<>>, <<[k |-> "threadexit", t |-> t]>>)
 
@@ -175,7 +190,7 @@ ThreadExit(t) ==
 RemoveLogger(l) ==
   /\ AllowRemove /\ lgValid[l] /\ \A t \in Threads : cur[t].lg # l
   /\ lgValid' = [lgValid EXCEPT ![l] = FALSE] /\ hasInval' = TRUE
-  /\ UNCHANGED <<now, fpc, cur, nlog, nflush, need, flag, q, wpos, rpos, rpub, fail, valid, reg, ctxs, newFlag, invalidCnt, cache, ring,
+  /\ UNCHANGED <<now, fpc, cur, nlog, nflush, need, flag, q, wpos, nodes, rpos, rpub, fail, valid, reg, ctxs, newFlag, invalidCnt, cache, ring,
                  bpc, bi, tsNow, batchMode, lastIdle, flushWho, written, flushedTo, rmWait, rmDone, lgPresent, acc, nid, dropped, reported,
                  anyLate, bad>>
   /\ Step("D", "remove", <<l>>, <<[k |-> "remove", lg |-> l]>>)
@@ -190,7 +205,7 @@ RemoveBlockingStart(t, l) ==
   /\ IF reg[t] THEN UNCHANGED <<reg, ctxs, newFlag>>
      ELSE reg' = [reg EXCEPT ![t] = TRUE] /\ ctxs' = Append(ctxs, t) /\ newFlag' = TRUE
   /\ q' = [q EXCEPT ![t] = Append(@, [id |-> nid + 1, t |-> t, sz |-> RmSz, ts |-> now + 1, kind |-> "rmreq", lg |-> l])]
-  /\ wpos' = [wpos EXCEPT ![t] = @ + RmSz]
+  /\ wpos' = [wpos EXCEPT ![t] = @ + RmSz] /\ nodes' = [nodes EXCEPT ![t] = NodesAfter(t, RmSz)]
   /\ lgValid' = [lgValid EXCEPT ![l] = FALSE] /\ hasInval' = TRUE
   /\ fpc' = [fpc EXCEPT ![t] = "rmwait"] /\ cur' = [cur EXCEPT ![t] = [NoRec EXCEPT !.lg = l]]
   /\ rmDone' = [rmDone EXCEPT ![t] = FALSE]
@@ -207,13 +222,25 @@ RemoveBlockingCheck(t) ==
           /\ bad' = Fail(~lgPresent[cur[t].lg], "C17: remove_logger_blocking returned before the logger was removed")
           /\ Step(t, "rmbcheck", <<>>, <<[k |-> "removebret", lg |-> cur[t].lg, n |-> Cardinality({l \in Loggers : lgPresent[l]})]>>)
      ELSE /\ UNCHANGED <<fpc, cur, bad>> /\ Step(t, "rmbcheck", <<>>, <<>>)
-  /\ UNCHANGED <<now, nlog, nflush, need, flag, q, wpos, rpos, rpub, fail, valid, reg, ctxs, newFlag, invalidCnt, cache, ring,
+  /\ UNCHANGED <<now, nlog, nflush, need, flag, q, wpos, nodes, rpos, rpub, fail, valid, reg, ctxs, newFlag, invalidCnt, cache, ring,
                  bpc, bi, tsNow, batchMode, lastIdle, flushWho, written, flushedTo, nid, dropped, reported, anyLate>>
+
+\* Frontend::shrink_thread_local_queue(c): effective when c is at most half the producer buffer's capacity - the producer
+\* moves to a new, smaller buffer at once; the consumer follows after emptying the old one
+ShrinkQueue(t, c) ==
+  /\ UNCHANGED LgVars /\ UNCHANGED acc /\ UNCHANGED RmVars
+  /\ AllowShrink /\ ~Bounded /\ fpc[t] = "idle" /\ c * 2 <= PNode(t).cap
+  /\ nodes' = [nodes EXCEPT ![t] = Append(@, [base |-> wpos[t], cap |-> c])]
+  /\ IF reg[t] THEN UNCHANGED <<reg, ctxs, newFlag>>
+     ELSE reg' = [reg EXCEPT ![t] = TRUE] /\ ctxs' = Append(ctxs, t) /\ newFlag' = TRUE
+  /\ UNCHANGED <<now, fpc, cur, nlog, nflush, need, flag, q, wpos, rpos, rpub, fail, valid, invalidCnt, cache, ring,
+                 bpc, bi, tsNow, batchMode, lastIdle, flushWho, written, flushedTo, nid, dropped, reported, anyLate, bad>>
+  /\ Step(t, "shrink", <<c>>, <<[k |-> "ctxuse", t |-> t], [k |-> "shrink", req |-> c, before |-> PNode(t).cap, after |-> c]>>)
 
 Tick ==
   /\ UNCHANGED LgVars /\ UNCHANGED acc /\ UNCHANGED RmVars
   /\ Grace > 0 /\ now < MaxTime /\ now' = now + 1
-  /\ UNCHANGED <<fpc, cur, nlog, nflush, need, flag, q, wpos, rpos, rpub, fail, valid, reg, ctxs, newFlag, invalidCnt, cache, ring,
+  /\ UNCHANGED <<fpc, cur, nlog, nflush, need, flag, q, wpos, nodes, rpos, rpub, fail, valid, reg, ctxs, newFlag, invalidCnt, cache, ring,
                  bpc, bi, tsNow, batchMode, lastIdle, flushWho, written, flushedTo, nid, dropped, reported, anyLate, bad>>
   /\ Step("D", "tick", <<>>, <<>>)
 
@@ -230,16 +257,21 @@ BStart ==
   /\ bi' = 1 /\ lastIdle' = FALSE
   /\ IF Reload(cache) = <<>> THEN bpc' = "idle0" /\ batchMode' = FALSE
      ELSE bpc' = "pop" /\ batchMode' = FALSE
-  /\ UNCHANGED <<fpc, cur, nlog, nflush, need, flag, q, wpos, rpos, rpub, fail, valid, reg, ctxs, invalidCnt, ring, flushWho, written,
+  /\ UNCHANGED <<fpc, cur, nlog, nflush, need, flag, q, wpos, nodes, rpos, rpub, fail, valid, reg, ctxs, invalidCnt, ring, flushWho, written,
                  flushedTo, nid, dropped, reported, anyLate, bad>>
   /\ Step("B", "start", <<>>, <<>>)
 
-\* _read_and_decode_frontend_queue for one context: do { take } while (bytes < Cap /\ ring size < Hard)
-RECURSIVE Take(_, _, _, _)
-Take(qs, rlen, bytes, k) ==
-  IF qs = <<>> \/ Head(qs).ts > tsNow THEN k
+\* _read_and_decode_frontend_queue for one context: do { prepare_read; take } while (bytes < capacity /\ ring size < Hard).
+\* ns = buffer chain, nd = the consumer's buffer, pos = its byte position; capacity is read once before the loop; a
+\* prepare_read that finds the buffer empty switches to the next one (freeing the old) - one switch per attempt
+NodeEmpty(ns, nd, pos, qs) == IF nd < Len(ns) THEN pos = ns[nd + 1].base ELSE qs = <<>>
+RECURSIVE Walk(_, _, _, _, _, _, _, _)
+Walk(ns, qs, rlen, bytes, k, pos, nd, cap0) ==
+  LET nd1 == IF NodeEmpty(ns, nd, pos, qs) /\ nd < Len(ns) THEN nd + 1 ELSE nd IN
+  IF NodeEmpty(ns, nd1, pos, qs) \/ Head(qs).ts > tsNow THEN [k |-> k, nd |-> nd1]
   ELSE LET b2 == bytes + Head(qs).sz  n2 == rlen + 1 IN
-       IF b2 < Cap /\ n2 < Hard THEN Take(Tail(qs), n2, b2, k + 1) ELSE k + 1
+       IF b2 < cap0 /\ n2 < Hard THEN Walk(ns, Tail(qs), n2, b2, k + 1, pos + Head(qs).sz, nd1, cap0)
+       ELSE [k |-> k + 1, nd |-> nd1]
 RECURSIVE SumSz(_)
 SumSz(s) == IF s = <<>> THEN 0 ELSE Head(s).sz + SumSz(Tail(s))
 
@@ -247,12 +279,15 @@ BRead ==
   /\ UNCHANGED LgVars /\ UNCHANGED acc /\ UNCHANGED rmDone
   /\ bpc = "pop"
   /\ LET t == cache[bi]
-         k == Take(q[t], Len(ring[t]), 0, 0)
+         ns == nodes[t]
+         w == Walk(ns, q[t], Len(ring[t]), 0, 0, rpos[t], 1, ns[1].cap)
+         k == w.k
          taken == SubSeq(q[t], 1, k)
          rest == SubSeq(q[t], k + 1, Len(q[t]))
          r2 == rpos[t] + SumSz(taken)
-         unpub == r2 - rpub[t]
-         pub == k > 0 /\ (unpub >= Batch \/ (PublishWhenDrained /\ unpub # 0 /\ rest = <<>>))
+         rpub0 == IF w.nd > 1 THEN ns[w.nd].base ELSE rpub[t]     \* a fresh buffer starts with nothing consumed
+         unpub == r2 - rpub0
+         pub == k > 0 /\ (unpub >= BatchOf(ns[w.nd].cap) \/ (PublishWhenDrained /\ unpub # 0 /\ NodeEmpty(ns, w.nd, r2, rest)))
          rg2 == [ring EXCEPT ![t] = @ \o taken]
          last == bi = Len(cache)
          n == Total(rg2, cache)
@@ -263,7 +298,8 @@ BRead ==
      \* decoding a LoggerRemovalRequest registers the caller's flag under the logger's name
      /\ rmWait' = [l \in Loggers |-> IF \E i \in 1..Len(taken) : taken[i].kind = "rmreq" /\ taken[i].lg = l THEN t ELSE rmWait[l]]
      /\ q' = [q EXCEPT ![t] = rest] /\ ring' = rg2 /\ rpos' = [rpos EXCEPT ![t] = r2]
-     /\ rpub' = [rpub EXCEPT ![t] = IF pub THEN r2 ELSE @]
+     /\ rpub' = [rpub EXCEPT ![t] = IF pub THEN r2 ELSE rpub0]
+     /\ nodes' = [nodes EXCEPT ![t] = SubSeq(ns, w.nd, Len(ns))]
      /\ cache' = c2 /\ newFlag' = IF batch THEN FALSE ELSE newFlag
      /\ bi' = IF last THEN 1 ELSE bi + 1
      /\ batchMode' = batch
@@ -321,7 +357,7 @@ BProc ==
                   /\ flushedTo' = Len(written) /\ UNCHANGED <<written, bad>>
                   /\ bpc' = "poppedflush" /\ flushWho' = e.t
                   /\ Step("B", "proc", <<t>>, <<[k |-> "sflush", s |-> "S0", thr |-> FALSE]>>)
-  /\ UNCHANGED <<now, fpc, cur, nlog, nflush, need, flag, q, wpos, rpos, rpub, fail, valid, reg, ctxs, newFlag, invalidCnt, cache, bi,
+  /\ UNCHANGED <<now, fpc, cur, nlog, nflush, need, flag, q, wpos, nodes, rpos, rpub, fail, valid, reg, ctxs, newFlag, invalidCnt, cache, bi,
                  tsNow, batchMode, lastIdle, nid, dropped, reported, anyLate>>
 
 \* from the hook after pop_front to the next yield point (single: poll end; batch: BATCH_ITER)
@@ -342,7 +378,7 @@ BAfterPop ==
      ELSE /\ UNCHANGED <<cache, ctxs, invalidCnt, fail, reported, flag>>
           /\ Step("B", "afterpop", <<>>, <<>>)
   /\ bpc' = IF batchMode THEN "batchiter" ELSE "start"
-  /\ UNCHANGED <<now, fpc, cur, nlog, nflush, need, q, wpos, rpos, rpub, valid, reg, newFlag, ring, bi, tsNow, batchMode, lastIdle, flushWho,
+  /\ UNCHANGED <<now, fpc, cur, nlog, nflush, need, q, wpos, nodes, rpos, rpub, valid, reg, newFlag, ring, bi, tsNow, batchMode, lastIdle, flushWho,
                  written, flushedTo, nid, dropped, anyLate, bad>>
 
 \* batch loop: has_pending...() again (cache reload first); TRUE ends the poll
@@ -351,7 +387,7 @@ BBatchIter ==
   /\ bpc = "batchiter"
   /\ cache' = Reload(cache) /\ newFlag' = FALSE
   /\ bpc' = IF HasPending(Reload(cache)) THEN "start" ELSE "proc"
-  /\ UNCHANGED <<now, fpc, cur, nlog, nflush, need, flag, q, wpos, rpos, rpub, fail, valid, reg, ctxs, invalidCnt, ring, bi, tsNow,
+  /\ UNCHANGED <<now, fpc, cur, nlog, nflush, need, flag, q, wpos, nodes, rpos, rpub, fail, valid, reg, ctxs, invalidCnt, ring, bi, tsNow,
                  batchMode, lastIdle, flushWho, written, flushedTo, nid, dropped, reported, anyLate, bad>>
   /\ Step("B", "batchiter", <<>>, <<>>)
 
@@ -359,7 +395,7 @@ BBatchIter ==
 BIdle0 ==      \* force flush all sinks
   /\ UNCHANGED LgVars /\ UNCHANGED acc /\ UNCHANGED RmVars
   /\ bpc = "idle0" /\ bpc' = "idle1" /\ flushedTo' = Len(written)
-  /\ UNCHANGED <<now, fpc, cur, nlog, nflush, need, flag, q, wpos, rpos, rpub, fail, valid, reg, ctxs, newFlag, invalidCnt, cache, ring,
+  /\ UNCHANGED <<now, fpc, cur, nlog, nflush, need, flag, q, wpos, nodes, rpos, rpub, fail, valid, reg, ctxs, newFlag, invalidCnt, cache, ring,
                  bi, tsNow, batchMode, lastIdle, flushWho, written, nid, dropped, reported, anyLate, bad>>
   /\ Step("B", "idle0", <<>>, <<[k |-> "sflush", s |-> "S0", thr |-> FALSE]>>)
 
@@ -370,7 +406,7 @@ BIdle1 ==      \* report and reset failure counters of the cached contexts
      /\ reported' = reported + (IF Dropping THEN rep ELSE 0)
      /\ fail' = [t \in Threads |-> IF t \in Range(cache) /\ Bounded THEN 0 ELSE fail[t]]
      /\ Step("B", "idle1", <<>>, NotifySeq(cache))
-  /\ UNCHANGED <<now, fpc, cur, nlog, nflush, need, flag, q, wpos, rpos, rpub, valid, reg, ctxs, newFlag, invalidCnt, cache, ring, bi,
+  /\ UNCHANGED <<now, fpc, cur, nlog, nflush, need, flag, q, wpos, nodes, rpos, rpub, valid, reg, ctxs, newFlag, invalidCnt, cache, ring, bi,
                  tsNow, batchMode, lastIdle, flushWho, written, flushedTo, nid, dropped, anyLate, bad>>
 
 BIdle2 ==      \* are all queues and rings empty? (cache reload first)
@@ -378,7 +414,7 @@ BIdle2 ==      \* are all queues and rings empty? (cache reload first)
   /\ bpc = "idle2"
   /\ cache' = Reload(cache) /\ newFlag' = FALSE
   /\ bpc' = IF \A i \in 1..Len(Reload(cache)) : q[Reload(cache)[i]] = <<>> /\ ring[Reload(cache)[i]] = <<>> THEN "idle3" ELSE "start"
-  /\ UNCHANGED <<now, fpc, cur, nlog, nflush, need, flag, q, wpos, rpos, rpub, fail, valid, reg, ctxs, invalidCnt, ring, bi, tsNow,
+  /\ UNCHANGED <<now, fpc, cur, nlog, nflush, need, flag, q, wpos, nodes, rpos, rpub, fail, valid, reg, ctxs, invalidCnt, ring, bi, tsNow,
                  batchMode, lastIdle, flushWho, written, flushedTo, nid, dropped, reported, anyLate, bad>>
   /\ Step("B", "idle2", <<>>, <<>>)
 
@@ -411,13 +447,13 @@ BIdle3 ==      \* clean up invalidated contexts, then invalidated loggers (and s
                     "C20: a dead thread's context is retained (or a live one removed) after an idle poll")
      /\ Step("B", "idle3", <<>>, (IF rep > 0 THEN <<[k |-> "notify", cls |-> "dropped", n |-> rep]>> ELSE <<>>)
                                   \o (IF gone # {} THEN <<[k |-> "loggercount", n |-> Cardinality({l \in Loggers : lgPresent[l]} \ gone)]>> ELSE <<>>))
-  /\ UNCHANGED <<now, fpc, cur, nlog, nflush, need, flag, q, wpos, rpos, rpub, valid, reg, ring, bi, tsNow, batchMode, flushWho, written,
+  /\ UNCHANGED <<now, fpc, cur, nlog, nflush, need, flag, q, wpos, nodes, rpos, rpub, valid, reg, ring, bi, tsNow, batchMode, flushWho, written,
                  flushedTo, acc, nid, dropped, anyLate>>
 
 Next == \/ \E t \in Threads : \/ \E sz \in Sizes, l \in Loggers : LogStart(t, sz, l)
                               \/ Enqueue(t) \/ Retry(t) \/ FlushStart(t) \/ FlushCheck(t) \/ ThreadExit(t)
         \/ (\E l \in Loggers : RemoveLogger(l)) \/ (\E t \in Threads, l \in Loggers : RemoveBlockingStart(t, l))
-        \/ (\E t \in Threads : RemoveBlockingCheck(t)) \/ Tick \/ BStart \/ BRead \/ BProc \/ BAfterPop \/ BBatchIter \/ BIdle0 \/ BIdle1 \/ BIdle2 \/ BIdle3
+        \/ (\E t \in Threads : RemoveBlockingCheck(t)) \/ (\E t \in Threads : ShrinkQueue(t, Cap)) \/ Tick \/ BStart \/ BRead \/ BProc \/ BAfterPop \/ BBatchIter \/ BIdle0 \/ BIdle1 \/ BIdle2 \/ BIdle3
 Spec == Init /\ [][Next]_vars
 BackendNext == BStart \/ BRead \/ BProc \/ BAfterPop \/ BBatchIter \/ BIdle0 \/ BIdle1 \/ BIdle2 \/ BIdle3
 FairSpec == Spec /\ WF_vars(BackendNext) /\ \A t \in Threads : WF_vars(Retry(t)) /\ WF_vars(FlushCheck(t)) /\ WF_vars(Enqueue(t))
@@ -425,7 +461,7 @@ FairSpec == Spec /\ WF_vars(BackendNext) /\ \A t \in Threads : WF_vars(Retry(t))
 \* ------------------------------------------------------------------ properties on the model
 NoBad == bad = ""                       \* the per-action checks of C03 C05 C06 C08 C20 above
 \* C09 (safety form): a blocked producer whose queue and ring are empty after a completed idle poll can reserve
-NoStall == \A t \in Threads : (fpc[t] = "blocked" /\ q[t] = <<>> /\ ring[t] = <<>> /\ bpc = "start" /\ lastIdle /\ cur[t].sz <= Cap)
+NoStall == \A t \in Threads : (fpc[t] = "blocked" /\ q[t] = <<>> /\ ring[t] = <<>> /\ bpc = "start" /\ lastIdle /\ cur[t].sz <= (IF Bounded THEN Cap ELSE MaxCap))
                                => Fits(t, cur[t].sz)
 \* C08: when everything is quiet the reported discards add up (bounded dropping)
 Quiet == bpc = "start" /\ lastIdle /\ \A t \in Threads : fpc[t] \in {"idle", "done", "rmwait"} /\ q[t] = <<>> /\ ring[t] = <<>> /\ fail[t] = 0
@@ -433,12 +469,16 @@ DropsAddUp == (Bounded /\ Dropping /\ Quiet) => reported = Cardinality(dropped)
 \* C03: at quiet points everything accepted has been written
 AllDelivered == Quiet => \A id \in acc : \E i \in 1..Len(written) : written[i].id = id
 TypeOK == /\ \A t \in Threads : wpos[t] >= rpos[t] /\ rpos[t] >= rpub[t] /\ (Bounded => wpos[t] - rpub[t] <= Cap)
+          \* C02 on the model: no buffer beyond the configured maximum, chain ordered, producer's buffer never overfull
+          /\ \A t \in Threads : /\ Len(nodes[t]) >= 1 /\ Free(t) >= 0
+                                /\ \A i \in 1..Len(nodes[t]) : nodes[t][i].cap <= Max2(Cap, MaxCap)
+                                /\ \A i \in 1..Len(nodes[t]) - 1 : nodes[t][i].base <= nodes[t][i + 1].base
           /\ flushedTo <= Len(written) /\ invalidCnt >= 0
 \* liveness (FairSpec): a blocked call resumes, a flush returns, every enqueued statement is written
 Resumes == \A t \in Threads : (fpc[t] = "blocked" /\ cur[t].sz <= Cap) ~> (fpc[t] # "blocked")
 FlushReturns == \A t \in Threads : (fpc[t] = "flushwait") ~> (fpc[t] = "idle")
 
-StateView == <<now, fpc, cur, nlog, nflush, need, flag, q, wpos, rpos, rpub, fail, valid, reg, ctxs, newFlag, invalidCnt,
+StateView == <<now, fpc, cur, nlog, nflush, need, flag, q, wpos, rpos, rpub, fail, valid, reg, nodes, ctxs, newFlag, invalidCnt,
                cache, ring, bpc, bi, tsNow, batchMode, lastIdle, flushWho, written, flushedTo, rmWait, rmDone, lgValid, lgPresent, hasInval, acc,
                nid, dropped, reported, anyLate, bad>>
 ExportA == Export => PrintT("BEH " \o ToJson(hist'))
